@@ -260,7 +260,17 @@ def try_success_edge(fn, call_term):
                 and t["args"][0][0] in ("c", "m") and t["args"][0][1][0] in als and len(t["args"][0][1]) == 1:
             d = t["dest"]
             # switch on discriminant(d)
-            for cand in sorted(fn.reachable(t["to"])):
+            # the nearest switch after the call (breadth first: block numbers are not topological once the function has loops)
+            order, seen_, todo_ = [], set(), [t["to"]]
+            while todo_:
+                nb_ = todo_.pop(0)
+                if nb_ is None or nb_ in seen_:
+                    continue
+                seen_.add(nb_)
+                order.append(nb_)
+                if fn.blocks[nb_]["t"]["t"] != "switch":
+                    todo_.extend(fn.succs(nb_))
+            for cand in order:
                 tt = fn.blocks[cand]["t"]
                 if tt["t"] == "switch":
                     o = fn.origin(tt["on"])
